@@ -737,3 +737,34 @@ Proof.
   split; [vm_compute; reflexivity|]. split; [vm_compute; reflexivity|].
   intro fuel. vm_compute. reflexivity.
 Qed.
+
+(* ---- when the count loop finishes, a run without jitter does not run out of fuel --------- *)
+Section Totality.
+  Context {F : Type} (fo : fops F) (OL : order_laws fo) (GL : grow_laws fo).
+
+  Lemma must_raise_false_parts : forall p, must_raise fo p = false ->
+    valid fo (p_start p) (p_stop p) (p_factor p) = true /\ jitter_valid fo (p_jitter p) = true.
+  Proof.
+    intros p H. unfold must_raise in H.
+    repeat (apply orb_false_iff in H as [H ?]).
+    apply negb_false_iff in H, H2. auto.
+  Qed.
+
+  Lemma run_list_default_not_fuel : forall start stop factor j take fuel draws,
+    valid fo start stop factor = true -> jitter_off fo j = true ->
+    default_count fo fuel stop factor start 1 <> DCFuel ->
+    o_end (run fo (mkP ApiList start stop CNone factor j take) fuel draws) <> EFuel.
+  Proof.
+    intros start stop factor j take fuel draws V Off D.
+    unfold run. cbn [p_api p_start p_stop p_count p_factor p_jitter p_take].
+    rewrite (prepare_valid fo OL fuel start stop factor CNone j V).
+    destruct (default_count fo fuel stop factor start 1) as [m| |]; [| |congruence].
+    - unfold after_count. destruct (count_neg (NFin m)); [discriminate|].
+      unfold jitter_valid. rewrite Off. simpl orb. cbv iota. simpl negb.
+      unfold produce. cbn [p_start p_stop p_factor p_jitter].
+      rewrite (gen_loop_plain fo OL GL start stop factor V (Z.to_nat m) j start draws
+                 (Inv_start fo start stop factor V)).
+      discriminate.
+    - discriminate.
+  Qed.
+End Totality.
